@@ -3,6 +3,8 @@ package db
 import (
 	"encoding/hex"
 	"encoding/json"
+	"os"
+
 	"github.com/brutella/hc/util"
 )
 
@@ -77,6 +79,12 @@ func (db *database) Entities() (es []Entity, err error) {
 	if ks, err = db.storage.KeysWithSuffix(".entity"); err == nil {
 		for _, k := range ks {
 			if e, err = db.entityForKey(k); err != nil {
+				if os.IsNotExist(err) {
+					// The entity was deleted after the keys were listed,
+					// e.g. a pairing removed via another connection
+					err = nil
+					continue
+				}
 				return nil, err
 			}
 			es = append(es, e)
